@@ -224,7 +224,13 @@ class CentralityClasses:
             MaxRecord = int(number_events * self.centrality_bins_[i] / 100.0)
 
             self.dNchdetaMax_.append(global_event_record[MinRecord])
-            self.dNchdetaMin_.append(global_event_record[MaxRecord - 1])
+            if MaxRecord > 0:
+                self.dNchdetaMin_.append(global_event_record[MaxRecord - 1])
+            else:
+                # no event ranks above this boundary: the class is empty and
+                # no multiplicity may be assigned to it (index -1 would wrap
+                # around to the smallest multiplicity of the sample)
+                self.dNchdetaMin_.append(float("inf"))
 
             MinRecord = MaxRecord
 
